@@ -12,6 +12,10 @@ Sections
  Q  == / != / hash on parameters x menagerie          (model: ppy_eq, ppy_ne, p_hash)
  B  str / bind / bind_partial on all call shapes      (oracle: plain inspect.Signature; model: sig_accepts)
  R  replace() of every field, signatures and parameters (model: usig_replace, uparam_replace)
+ G  twin namespaces: one source executed twice, unevaluable postponed annotations, module-level
+    objects whose == does not answer a bool (built pairs and real retrievals, both with the model)
+ H  annotation values whose own == does not answer a bool (harness only; oracle: the plain counterparts)
+Every comparison runs with warnings escalated to errors (python -W error, sigtools' pytest.ini).
 """
 import importlib.util
 import inspect
@@ -1876,11 +1880,19 @@ def run(ctx, rep):
                 'annotations pre-evaluated / postponed (resolving, resolving differently per function, not resolving) / unhashable, with sources; '
                 'plus signatures really retrieved (functions, methods, partials, wraps, forwards, modifiers, postponed module with TYPE_CHECKING-only names). '
                 'Each x menagerie (itself, fresh copy, plain counterpart, plain over the same parameter objects, copies differing in exactly one field '
-                'incl. only the upgraded annotation / only sources, None, str, int, float, object, tuple, __eq__ returning NotImplemented / True / False / raising). '
+                'incl. only the upgraded annotation / only sources, None, str, bytes, int, float, object, tuple, list, dict, NotImplemented, Ellipsis, the empty marker, '
+                'a class, a function, a BoundArguments, an object of the other level (parameter for a signature, signature for a parameter, plain and upgraded), '
+                '__eq__ returning NotImplemented / True / False / raising), every comparison under warnings escalated to errors; '
+                'twin namespaces (one source executed twice: different __globals__ dicts with equal content up to a module-level object whose == is ambiguous / raises / '
+                'is a signalling NaN / leads back to the compared signatures) x unevaluable postponed annotations, really retrieved and built; '
+                'annotation values whose == answers an object of ambiguous truth or an expression object (eager, postponed, modifiers.annotate, forwarded, partial, method) '
+                'against plain counterparts, copies, second retrievals. '
                 'non-trivial = a pair whose == is True between distinct objects, or False between objects with equal plain data, or that involves a foreign __eq__')
     rep.assumptions = [
         'default values and evaluated annotations compare with a total, symmetric == consistent with their hash (the model interns them as numbers)',
         'a partner whose own __eq__ raises is exempt from "never raises" (plain inspect objects propagate it too)',
+        'section H (annotation values whose == does not answer a bool) is outside the model; there the objects must answer what their plain counterparts (same sharing of objects) answer whenever those answer without raising',
+        'a comparison that emits a warning counts as raising (python -W error, the filterwarnings = error of sigtools\' pytest.ini)',
         'the model of CPython\'s comparison protocol (Model/Eq.v richcmp, tuple_eq, dict_eq) is trusted; it is compared with CPython on ad-hoc classes in every run',
     ]
     evaluations = 0
@@ -2040,6 +2052,7 @@ def run(ctx, rep):
     # ---- H: annotation values whose own == does not answer a bool (harness only, no model)
     n_hostile = 0
     hostile_failed = []
+    hostile_found = []       # reported after the sections inside the model's value domain
     for modname, nm in hostile_names():
         try:
             n, bad = decide_hostile(modname, nm)
@@ -2051,7 +2064,7 @@ def run(ctx, rep):
         rep.distinct.add(('H', modname, nm))
         for key, what in bad:
             hist[key] = hist.get(key, 0) + 1
-            _viol(rep, key, what, {'kind': 'hostile', 'module': modname, 'name': nm})
+            hostile_found.append((key, what, {'kind': 'hostile', 'module': modname, 'name': nm}))
     rep.coverage['hostile_annotation_checks'] = n_hostile
     rep.coverage['hostile_retrieval_failed'] = hostile_failed
 
@@ -2132,6 +2145,8 @@ def run(ctx, rep):
                 rep.distinct.add(('PR', p['id'], show_args(args)))
     termlists.append(('ok_srepl', srterms))
     termlists.append(('ok_prepl', prterms))
+    for key, what, data in hostile_found:
+        _viol(rep, key, what, data)
 
     # ---- the model
     bad = coq_bad(termlists)
